@@ -11,14 +11,17 @@ Rec == ndJsonDeserialize(IOEnv.TRACE)
 IsEv(e) == l <= Len(Rec) /\ Rec[l].ev = e /\ l' = l + 1
 
 Names == {"B1", "T1", "T2", "X1", "X2"}
+(* sizes when nothing was written: the base type is the first entry of its unit (one-byte ULEB offset) *)
+SizeRes == [unit |-> [n \in Names |-> FromNat(11, 8)], info |-> [n \in Names |-> FromNat(11, 8)]]
 ResOf(h) == [unit |-> [n \in Names |-> h[n].unit], info |-> [n \in Names |-> h[n].info]]
 
 Written == IsEv("Written") /\ LET r == Rec[l]
                                   enc == [asz |-> r.asz, fmt |-> r.fmt, ver |-> r.ver, le |-> TRUE] IN
     /\ ~r.abnormal
     /\ IF r.ok THEN /\ ~TooLong(r.calls, enc)
+                    /\ ~BranchTooFar(r.calls, enc, ResOf(r.hints))
                     /\ Matches(r.calls, r.bytes, enc, ResOf(r.hints))
-       ELSE TooLong(r.calls, enc) \/ Forward(r.calls)
+       ELSE TooLong(r.calls, enc) \/ Forward(r.calls) \/ BranchTooFar(r.calls, enc, SizeRes)
 
 Init == l = 1
 Next == Written
